@@ -17,7 +17,15 @@ The model (`Gms/Model/ShowCreate.lean`) transliterates the schema formatter. Thi
                         the same function since the `fix:` commit, so it reads back too, for all
                         strings; `fixed_index_comment_unescaped` keeps the pre-fix printer's
                         behaviour on the old witness (`lexStr_raw_of_safe`: printed *without*
-                        escaping, a string read back only when it held no quote and no backslash).
+                        escaping, a string read back only when it held no quote and no backslash);
+* `coll_round_trip`     the `CHARACTER SET` / `COLLATE` clauses `StringWithTableCollation` prints for a column
+                        of collation `c` in a table of collation `t` resolve, given the table default `t`, back
+                        to `c` — for every collation universe in which names identify collations;
+                        `table_coll_round_trip` the same for `DEFAULT CHARSET=… COLLATE=…`;
+                        `lexCollClause_specText` the clause text reads back as the optional names;
+                        `collate_clause_needed` dropping `COLLATE` for a character set's default collation
+                        without printing `CHARACTER SET` loses the collation (the recreated column inherits
+                        the table's); `mysql_clause_round_trip` MySQL's way of dropping it is sound.
 -/
 
 set_option linter.unusedSimpArgs false
@@ -214,6 +222,126 @@ theorem lexStr_raw_of_safe (s rest : Str) (hs : rawSafe s = true) (h : rest.head
   rw [lexStrBody_raw s rest [] hs h]
   simp
 
+
+-- ---------------------------------------------------------------------------------------------
+-- Character set / collation clauses
+
+theorem findColl_name {env : List Coll} {n : Str} {c : Coll} (h : findColl env n = some c) : c.name = n := by
+  unfold findColl at h
+  have := List.find?_some h
+  simpa using this
+
+/-- The reader applied to what `StringWithTableCollation` prints gives the column's collation back. -/
+theorem resolveColl_collSpecOf (env : List Coll) (t c : Coll)
+    (hc : findColl env c.name = some c) (ht : findColl env t.name = some t) :
+    resolveColl env t (collSpecOf t c) = some c := by
+  by_cases hn : c.name = t.name
+  · have hct : c = t := by
+      rw [hn, ht] at hc
+      exact (Option.some.inj hc).symm
+    subst hct
+    simp [resolveColl, collSpecOf]
+  · by_cases hcs : c.cs = t.cs
+    · simp [resolveColl, collSpecOf, hn, hcs, hc]
+    · simp [resolveColl, collSpecOf, hn, hcs, hc]
+
+theorem resolveColl_mysql (env : List Coll) (t c : Coll)
+    (hc : findColl env c.name = some c) (ht : findColl env t.name = some t)
+    (hd : c.isDflt = true → dfltColl env c.cs = some c) :
+    resolveColl env t (collSpecMysql t c) = some c := by
+  by_cases hn : c.name = t.name
+  · have hct : c = t := by
+      rw [hn, ht] at hc
+      exact (Option.some.inj hc).symm
+    subst hct
+    simp [resolveColl, collSpecMysql]
+  · by_cases hdf : c.isDflt = true
+    · simp [resolveColl, collSpecMysql, hn, hdf, hd hdf]
+    · simp [resolveColl, collSpecMysql, hn, hdf, hc]
+
+-- the clause text
+
+theorem dropPrefix_append (p s : Str) : dropPrefix p (p ++ s) = some s := by
+  induction p with
+  | nil => cases s <;> rfl
+  | cons c p ih => simp [dropPrefix, ih]
+
+theorem spanWord_append (w rest : Str) (hw : w.all isWordChar = true)
+    (hr : ∀ c r, rest = c :: r → isWordChar c = false) : spanWord (w ++ rest) = (w, rest) := by
+  induction w with
+  | nil =>
+    cases rest with
+    | nil => rfl
+    | cons c r => simp [spanWord, hr c r rfl]
+  | cons c w ih =>
+    simp only [List.all_cons, Bool.and_eq_true] at hw
+    simp [spanWord, hw.1, ih hw.2]
+
+/-- What may follow the clauses in a column definition: not a word character (the name must end) and
+not one of the two clause keywords. -/
+def ClauseEnd (rest : Str) : Prop :=
+  (∀ c r, rest = c :: r → isWordChar c = false) ∧
+  dropPrefix " CHARACTER SET ".toList rest = none ∧ dropPrefix " COLLATE ".toList rest = none
+
+theorem lexKw_hit (kw w rest : Str) (hw : w.all isWordChar = true)
+    (hr : ∀ c r, rest = c :: r → isWordChar c = false) : lexKw kw (kw ++ (w ++ rest)) = (some w, rest) := by
+  unfold lexKw
+  rw [dropPrefix_append]
+  simp only []
+  rw [spanWord_append w rest hw hr]
+
+theorem lexKw_miss (kw s : Str) (h : dropPrefix kw s = none) : lexKw kw s = (none, s) := by
+  unfold lexKw
+  rw [h]
+
+theorem dropPrefix_cs_collate (x : Str) : dropPrefix " CHARACTER SET ".toList (" COLLATE ".toList ++ x) = none := by
+  simp [dropPrefix]
+
+theorem space_not_word (x : Str) : ∀ c r, (" COLLATE ".toList ++ x : Str) = c :: r → isWordChar c = false := by
+  intro c r h
+  have h1 : (" COLLATE ".toList ++ x : Str) = ' ' :: ("COLLATE ".toList ++ x) := by simp
+  rw [h1] at h
+  injection h with h2 _
+  rw [← h2]; decide
+
+/-- **The clause text reads back**: ` CHARACTER SET <cs>` / ` COLLATE <name>` in any of the four
+combinations, followed by anything that may follow a type in a column definition. -/
+theorem lexCollClause_specText' (s : CollSpec) (rest : Str)
+    (hcs : ∀ n, s.cs = some n → n.all isWordChar = true)
+    (hco : ∀ n, s.coll = some n → n.all isWordChar = true)
+    (hr : ClauseEnd rest) :
+    lexCollClause (specText s ++ rest) = (s, rest) := by
+  obtain ⟨cs, co⟩ := s
+  obtain ⟨hr1, hr2, hr3⟩ := hr
+  cases cs with
+  | none =>
+    cases co with
+    | none =>
+      simp only [lexCollClause, specText, List.nil_append, List.append_nil]
+      rw [lexKw_miss _ _ hr2]
+      simp only []
+      rw [lexKw_miss _ _ hr3]
+    | some n =>
+      have hn := hco n rfl
+      simp only [lexCollClause, specText, List.nil_append, List.append_assoc]
+      rw [lexKw_miss _ _ (dropPrefix_cs_collate _)]
+      simp only []
+      rw [lexKw_hit _ n rest hn hr1]
+  | some m =>
+    have hm := hcs m rfl
+    cases co with
+    | none =>
+      simp only [lexCollClause, specText, List.append_nil, List.append_assoc]
+      rw [lexKw_hit _ m rest hm hr1]
+      simp only []
+      rw [lexKw_miss _ _ hr3]
+    | some n =>
+      have hn := hco n rfl
+      simp only [lexCollClause, specText, List.append_assoc]
+      rw [lexKw_hit _ m _ hm (space_not_word _)]
+      simp only []
+      rw [lexKw_hit _ n rest hn hr1]
+
 end Gms.ShowCreate
 
 -- =============================================================================================
@@ -294,14 +422,94 @@ theorem showKey_eq_prefix_of_plain (k : Key) (h : escape k.comment = k.comment) 
   unfold showKey showKeyPreFix
   rw [h]
 
+
+-- Character sets and collations ------------------------------------------------------------------
+
+/-- **Column collations read back.** For a column of collation `c` in a table of collation `t`, the
+reader applied — with the table default `t` — to the `CHARACTER SET` / `COLLATE` clauses that
+`StringWithTableCollation` prints yields `c` again: the recreated column has the collation (hence the
+character set) of the original. For every collation universe `env` in which a name identifies its
+collation; nothing is assumed about which collation is whose default. -/
+theorem coll_round_trip (env : List Coll) (t c : Coll)
+    (hc : findColl env c.name = some c) (ht : findColl env t.name = some t) :
+    resolveColl env t (collSpecOf t c) = some c := resolveColl_collSpecOf env t c hc ht
+
+/-- **Table collations read back**: `DEFAULT CHARSET=<cs> COLLATE=<name>` always names both. -/
+theorem table_coll_round_trip (env : List Coll) (d t : Coll) (ht : findColl env t.name = some t) :
+    resolveColl env d { cs := some t.cs, coll := some t.name } = some t := by
+  simp [resolveColl, ht]
+
+/-- The clause text reads back as the optional names (lexical half). -/
+theorem lexCollClause_specText (t c : Coll) (rest : Str)
+    (hcs : c.cs.all isWordChar = true) (hn : c.name.all isWordChar = true) (hr : ClauseEnd rest) :
+    lexCollClause (collClause t c ++ rest) = (collSpecOf t c, rest) := by
+  unfold collClause
+  apply lexCollClause_specText' _ _ _ _ hr
+  · intro n h
+    simp only [collSpecOf] at h
+    split at h
+    · cases h; exact hcs
+    · cases h
+  · intro n h
+    simp only [collSpecOf] at h
+    split at h
+    · cases h; exact hn
+    · cases h
+
+/-- The envelope is a universe the theorems apply to: names identify collations, every collation flagged
+default is the one `CHARACTER SET <cs>` alone resolves to, every character set has its default, and
+names are words. -/
+theorem envelope_closed :
+    (∀ c ∈ collTable, findColl collTable c.name = some c ∧ (c.isDflt = true → dfltColl collTable c.cs = some c) ∧
+      (dfltColl collTable c.cs).isSome = true ∧ c.name.all isWordChar = true ∧ c.cs.all isWordChar = true) ∧
+    findColl collTable engineColl.name = some engineColl := by
+  decide
+
+/-- On the envelope, for every pair (table collation, column collation). -/
+theorem coll_round_trip_envelope : ∀ t ∈ collTable, ∀ c ∈ collTable, resolveColl collTable t (collSpecOf t c) = some c :=
+  fun t ht c hc => coll_round_trip collTable t c (envelope_closed.1 c hc).1 (envelope_closed.1 t ht).1
+
+/-- **Why the `COLLATE` clause may not be dropped for a character set's default collation** (the class of
+change this guards against): a printer that omits `COLLATE` when the collation is its character set's
+default, and prints `CHARACTER SET` only when the character set differs from the table's, prints
+*nothing* for a `utf8mb4_0900_ai_ci` column of a `utf8mb4_0900_bin` table — the reader gives the
+recreated column the table's collation. -/
+theorem collate_clause_needed :
+    let t : Coll := ⟨"utf8mb4_0900_bin".toList, "utf8mb4".toList, false⟩
+    let c : Coll := ⟨"utf8mb4_0900_ai_ci".toList, "utf8mb4".toList, true⟩
+    t ∈ collTable ∧ c ∈ collTable ∧ collSpecElideDflt t c = { cs := none, coll := none } ∧
+    resolveColl collTable t (collSpecElideDflt t c) = some t ∧ t ≠ c ∧
+    resolveColl collTable t (collSpecOf t c) = some c := by
+  decide
+
+/-- MySQL's own elision is sound: it drops `COLLATE` for the default collation only while printing
+`CHARACTER SET`, and `CHARACTER SET <cs>` alone resolves to that default. -/
+theorem mysql_clause_round_trip (env : List Coll) (t c : Coll)
+    (hc : findColl env c.name = some c) (ht : findColl env t.name = some t)
+    (hd : c.isDflt = true → dfltColl env c.cs = some c) :
+    resolveColl env t (collSpecMysql t c) = some c := resolveColl_mysql env t c hc ht hd
+
+/-- A mismatching pair is rejected by the reader (and by the engine: corpus tables x1–x3). -/
+example : resolveColl collTable engineColl { cs := some "latin1".toList, coll := some "utf8mb4_bin".toList } = none := by decide
+-- non-vacuity of `lexCollClause_specText`: what follows a type in a column definition is a `ClauseEnd`
+example : ClauseEnd " NOT NULL".toList ∧ ClauseEnd ",\n".toList ∧ ClauseEnd " DEFAULT 'x'".toList ∧ ClauseEnd " COMMENT 'x'".toList ∧ ClauseEnd [] := by
+  refine ⟨⟨?_, by decide, by decide⟩, ⟨?_, by decide, by decide⟩, ⟨?_, by decide, by decide⟩, ⟨?_, by decide, by decide⟩, ⟨?_, by decide, by decide⟩⟩ <;>
+    (intro c r h; first | (cases h; decide) | cases h)
+example : collClause engineColl ⟨"latin1_swedish_ci".toList, "latin1".toList, true⟩ = " CHARACTER SET latin1 COLLATE latin1_swedish_ci".toList := by decide
+example : collClause ⟨"latin1_bin".toList, "latin1".toList, false⟩ ⟨"latin1_swedish_ci".toList, "latin1".toList, true⟩ = " COLLATE latin1_swedish_ci".toList := by decide
+example : showCol ⟨"latin1_bin".toList, "latin1".toList, false⟩
+    { name := ['a'], ty := .varchar 3, notNull := true, autoInc := false, dflt := none, comment := [],
+      coll := some ⟨"latin1_swedish_ci".toList, "latin1".toList, true⟩ } = "  `a` varchar(3) COLLATE latin1_swedish_ci NOT NULL".toList := by decide
+
 -- Non-vacuity / printer examples ----------------------------------------------------------------
 
 example : quoteIdent ['a', '`', 'b'] = ['`', 'a', '`', '`', 'b', '`'] := by decide
 example : lexIdent (quoteIdent ['a', '`', 'b'] ++ [' ', 'i', 'n', 't']) = some (['a', '`', 'b'], [' ', 'i', 'n', 't']) := by decide
 example : escapeSeq ['\'', '\\', '"', '\n'] = ['\'', '\'', '\\', '\\', '\\', '"', '\\', 'n'] := by decide
 
-example : showCol { name := ['a', '`'], ty := .int, notNull := true, autoInc := false, dflt := some (.num ['5']),
-                    comment := ['x', '\''] } = "  `a``` int NOT NULL DEFAULT '5' COMMENT 'x'''".toList := by decide
+example : showCol engineColl
+    { name := ['a', '`'], ty := .int, notNull := true, autoInc := false, dflt := some (.num ['5']),
+      comment := ['x', '\''] } = "  `a``` int NOT NULL DEFAULT '5' COMMENT 'x'''".toList := by decide
 
 set_option maxRecDepth 20000 in
 example : showTable exTable
@@ -339,6 +547,31 @@ theorem type_texts_match :
     typeTexts = [(".int", tyText .int), (".bigint", tyText .bigint), (".tinyint", tyText .tinyint), (".double", tyText .double),
       (".text", tyText .text), (".date", tyText .date), ("(.varchar 1)", tyText (.varchar 1)), ("(.varchar 40)", tyText (.varchar 40)),
       ("(.char 9)", tyText (.char 9)), ("(.decimal 10 2)", tyText (.decimal 10 2)), ("(.decimal 3 0)", tyText (.decimal 3 0))] := by
+  decide
+
+set_option maxRecDepth 100000 in
+open Gms.Generated.C22 in
+/-- What the compiled code says about every collation of the envelope (character set, whether it is that
+character set's default) and the engine's default table collation are the model's. -/
+theorem coll_table_match :
+    collFacts.map (fun (n, cs, d) => (n.toList, cs.toList, d)) = collTable.map (fun c => (c.name, c.cs, c.isDflt)) ∧
+    engineDefaultCollation.toList = engineColl.name ∧
+    -- `EnumType` / `SetType.StringWithTableCollation` print the same clauses as `StringType` (`clause_table_match`)
+    enumSetClausesAgree = true := by
+  decide
+
+/-- Every (table collation, column collation) pair of the envelope, by index. -/
+def collPairs : List (Nat × Nat) := (List.range collTable.length).flatMap fun i => (List.range collTable.length).map fun j => (i, j)
+
+set_option maxRecDepth 1000000 in
+open Gms.Generated.C22 in
+/-- The text the compiled `StringWithTableCollation` appends to `varchar(n)` / `char(n)` / `text` is the
+model's `collClause`, for EVERY pair (table collation, column collation) of the envelope — a condition
+of that function that is weakened or strengthened breaks this obligation (and `collate_clause_needed` /
+the object comparison of the oracle give the failing input). -/
+theorem clause_table_match :
+    clauseFacts.map (fun (i, j, s) => (i, j, s.toList)) =
+      collPairs.map (fun (i, j) => (i, j, collClause (collTable.getD i default) (collTable.getD j default))) := by
   decide
 
 end Gms.C22
